@@ -562,6 +562,121 @@ func RunRapid(c *core.Ctx) {
 		c.Check(okFM && nDraw >= 10, "RAPID.opts", "rapidproto.genScalarFieldValue field mappers first", fmt.Sprintf("all %d per-kind draws come after the FieldMaps loop", nDraw), "per-kind draws are not preceded by the FieldMaps loop", pos(f.Pos()), src)
 	}
 
+	// ------------------------------------------------------------------ RAPID.utf8
+	// every protoreflect.ValueOfString argument derives from a rapid string generator (valid UTF-8 by construction),
+	// a constant, fmt.Sprintf of such, or a parameter
+	var strOK func(v ssa.Value, d int) bool
+	strOK = func(v ssa.Value, d int) bool {
+		if d > 8 {
+			return false
+		}
+		v = stripConv(v)
+		switch t := v.(type) {
+		case *ssa.Const, *ssa.Parameter:
+			return true
+		case *ssa.Phi:
+			for _, e := range t.Edges {
+				if !strOK(e, d+1) {
+					return false
+				}
+			}
+			return true
+		case *ssa.Call:
+			cf := t.Call.StaticCallee()
+			if cf == nil {
+				return false
+			}
+			if strings.HasPrefix(cf.Name(), "Draw") && len(t.Call.Args) >= 1 {
+				if g, ok := t.Call.Args[0].(*ssa.Call); ok && g.Call.StaticCallee() != nil {
+					switch g.Call.StaticCallee().Name() {
+					case "String", "StringN", "StringOf", "StringOfN", "StringMatching":
+						return true
+					}
+					if strings.HasPrefix(g.Call.StaticCallee().Name(), "SampledFrom") {
+						return true // sampled from caller-supplied strings
+					}
+				}
+				return false
+			}
+			if cf.String() == "fmt.Sprintf" {
+				return true
+			}
+		case *ssa.UnOp, *ssa.Index, *ssa.Lookup, *ssa.Extract, *ssa.Next:
+			return true // element of a collection of such strings (paths list): checked at its source below
+		}
+		return false
+	}
+	nStr := 0
+	for _, f := range fns {
+		allInstrs(f, func(b *ssa.BasicBlock, in ssa.Instruction) {
+			call, ok := in.(*ssa.Call)
+			if !ok || call.Call.StaticCallee() == nil || call.Call.StaticCallee().String() != "google.golang.org/protobuf/reflect/protoreflect.ValueOfString" {
+				return
+			}
+			nStr++
+			con := fmt.Sprintf("rapidproto.%s ValueOfString#%d", f.Name(), ordinalInFunc(f, in))
+			c.Check(strOK(call.Call.Args[0], 0), "RAPID.utf8", con, "string value comes from a rapid string generator, a constant or a parameter", "string value does not come from a UTF-8 producing source (e.g. bytes converted to string)", pos(in.Pos()), src)
+		})
+	}
+	// ------------------------------------------------------------------ RAPID.any
+	{
+		f := byName["genAny"]
+		var find, marshal *ssa.Call
+		var setURL, setVal ssa.CallInstruction
+		allInstrs(f, func(b *ssa.BasicBlock, in ssa.Instruction) {
+			ci, ok := in.(ssa.CallInstruction)
+			if !ok {
+				return
+			}
+			n := calleeName(ci.Common())
+			switch {
+			case strings.HasSuffix(n, ".FindMessageByURL"):
+				find, _ = in.(*ssa.Call)
+			case n == "google.golang.org/protobuf/proto.Marshal":
+				marshal, _ = in.(*ssa.Call)
+			case ci.Common().IsInvoke() && ci.Common().Method.Name() == "Set" && len(ci.Common().Args) == 2:
+				if fa, ok := stripConv(ci.Common().Args[0]).(*ssa.Call); ok && fa.Call.IsInvoke() && fa.Call.Method.Name() == "ByName" {
+					nm, _ := constString(stripConv(fa.Call.Args[0]))
+					switch nm {
+					case "type_url":
+						setURL = ci
+					case "value":
+						setVal = ci
+					}
+				}
+			}
+		})
+		okAny := find != nil && marshal != nil && setURL != nil && setVal != nil
+		why := "expected FindMessageByURL, proto.Marshal, Set(type_url) and Set(value)"
+		if okAny {
+			// type_url stored = the URL that was resolved
+			uv, ok := setURL.Common().Args[1].(*ssa.Call)
+			okAny = ok && len(uv.Call.Args) == 1 && len(find.Call.Args) == 1 && uv.Call.Args[0] == find.Call.Args[0]
+			why = "the stored type_url is not the URL that was resolved"
+		}
+		if okAny {
+			// value = proto.Marshal(typ.New().Interface()) with typ the resolved type
+			root, ok := invokeChain(marshal.Call.Args[0], "New", "Interface")
+			okAny = false
+			why = "the marshalled message is not typ.New() of the resolved type"
+			if ok {
+				if ex, ok := root.(*ssa.Extract); ok && ex.Tuple == ssa.Value(find) && ex.Index == 0 {
+					okAny = true
+				}
+			}
+		}
+		if okAny {
+			vv, ok := setVal.Common().Args[1].(*ssa.Call)
+			okAny = false
+			why = "the stored value is not the bytes returned by proto.Marshal"
+			if ok && len(vv.Call.Args) == 1 {
+				if ex, ok := vv.Call.Args[0].(*ssa.Extract); ok && ex.Tuple == ssa.Value(marshal) && ex.Index == 0 {
+					okAny = true
+				}
+			}
+		}
+		c.Check(okAny, "RAPID.any", "rapidproto.genAny consistency", "type_url is the resolved URL; value is proto.Marshal of a new message of exactly that resolved type", why, pos(f.Pos()), src)
+	}
 	// ------------------------------------------------------------------ RAPID.nil
 	runRapidNil(c, fns, seen)
 }
